@@ -150,6 +150,109 @@ def use_before_any_binding(func):
     return out
 
 
+def flags_without_default(func):
+    """a local that is only ever assigned literal constants (a flag), read at a point that no binding of it dominates: every
+    assignment sits under a condition or in a loop body the read is outside of, so at the read the name holds one of
+    its constants or nothing at all - the `found = False` in front of the search was lost.  Reads inside a loop that
+    itself assigns the name are not judged; an if/else (or complementary ifs) whose branches all bind or leave counts
+    as a binding, so does a with / try body.  -> [(name, line)]"""
+    fn = func.node
+    params = {a.arg for a in fn.args.posonlyargs + fn.args.args + fn.args.kwonlyargs}
+    declared = set()
+    nested = set()
+    for n in ast.walk(fn):
+        if isinstance(n, (ast.Global, ast.Nonlocal)):
+            declared |= set(n.names)
+        if n is not fn and isinstance(n, (ast.FunctionDef, ast.Lambda, ast.ClassDef)):
+            for x in ast.walk(n):
+                if x is not n:
+                    nested.add(id(x))
+    consts, other = {}, set()
+    for n in ast.walk(fn):
+        if id(n) in nested:
+            continue
+        if isinstance(n, ast.Assign) and len(n.targets) == 1 and isinstance(n.targets[0], ast.Name) and isinstance(n.value, ast.Constant):
+            consts.setdefault(n.targets[0].id, set()).add(id(n.targets[0]))
+    for n in ast.walk(fn):
+        if isinstance(n, ast.Name) and isinstance(n.ctx, (ast.Store, ast.Del)) and id(n) not in consts.get(n.id, ()):
+            other.add(n.id)
+        elif isinstance(n, (ast.Import, ast.ImportFrom)):
+            other |= {(a.asname or a.name).split('.')[0] for a in n.names}
+        elif isinstance(n, ast.ExceptHandler) and n.name:
+            other.add(n.name)
+    cands = {k for k in consts if k not in other and k not in params and k not in declared}
+    if not cands:
+        return []
+
+    def leaves(block):
+        return any(isinstance(s, (ast.Return, ast.Raise, ast.Continue, ast.Break)) for s in block)
+
+    def binds(s, name):
+        if isinstance(s, ast.Assign):
+            return any(isinstance(t, ast.Name) and t.id == name for t in s.targets)
+        if isinstance(s, ast.If):
+            return (block_binds(s.body, name) or leaves(s.body)) and bool(s.orelse) and (block_binds(s.orelse, name) or leaves(s.orelse))
+        if isinstance(s, (ast.With, ast.For, ast.While)):
+            return block_binds(s.body, name)
+        if isinstance(s, ast.Try):
+            return block_binds(s.body, name) or block_binds(s.finalbody, name)
+        return False
+
+    def block_binds(block, name):
+        if any(binds(s, name) for s in block):
+            return True
+        tests = {}
+        for s in block:       # complementary ifs:  if t: x = a   ...   if not t: x = b
+            if isinstance(s, ast.If) and not s.orelse and block_binds(s.body, name):
+                t = s.test
+                pos = True
+                while isinstance(t, ast.UnaryOp) and isinstance(t.op, ast.Not):
+                    t, pos = t.operand, not pos
+                tests.setdefault(ast.dump(t), set()).add(pos)
+        return any(v == {True, False} for v in tests.values())
+
+    out = []
+    def walk(block, dominated, in_loop_binding):
+        dom = set(dominated)
+        for i, s in enumerate(block):
+            tests = {}
+            for name in cands - dom:
+                if block_binds(block[:i], name):
+                    dom.add(name)
+            subs = [(f, getattr(s, f)) for f in ('body', 'orelse', 'finalbody') if isinstance(getattr(s, f, None), list)]
+            if isinstance(s, ast.Try):
+                subs += [('handler', h.body) for h in s.handlers]
+            sub_ids = {id(x) for _, b in subs for st in b for x in ast.walk(st)}
+            for x in ast.walk(s):
+                if id(x) in sub_ids or id(x) in nested:
+                    continue
+                if isinstance(x, ast.Name) and isinstance(x.ctx, ast.Load) and x.id in cands and x.id not in dom \
+                        and not (x.id in in_loop_binding and (x.lineno, x.col_offset) < in_loop_binding[x.id]):
+                    out.append((x.id, x.lineno))
+            if isinstance(s, (ast.FunctionDef, ast.ClassDef)):
+                continue
+            loop_names = dict(in_loop_binding)
+            if isinstance(s, (ast.For, ast.While)):
+                # a read in front of a binding further down the same loop body is loop-carried: not judged
+                for x in ast.walk(s):
+                    if isinstance(x, ast.Name) and isinstance(x.ctx, ast.Store):
+                        loop_names[x.id] = max(loop_names.get(x.id, (0, 0)), (x.lineno, x.col_offset))
+            for f, b in subs:
+                if isinstance(s, (ast.For, ast.While)) and f == 'orelse':
+                    walk(b, dom | {n_ for n_ in cands if block_binds(s.body, n_)}, in_loop_binding)
+                elif isinstance(s, ast.Try) and f != 'body':
+                    walk(b, dom | {n_ for n_ in cands if block_binds(s.body, n_)}, loop_names)      # lenient: the try body ran
+                else:
+                    walk(b, dom, loop_names)
+    walk(fn.body, set(), {})
+    seen, res = set(), []
+    for name, line in sorted(out, key=lambda t: t[1]):
+        if name not in seen:
+            seen.add(name)
+            res.append((name, line))
+    return res
+
+
 RECEIVER_CLASS = {'model': 'Model'}
 _ctor_maps = {}
 
